@@ -427,6 +427,44 @@ def run_scale_invariance(case):
     return info(case, ["scale=2^%d" % case["scale_exp"], "impl=" + case["impl"], "rescaled_warned=%s" % w2])
 
 
+# --------------------------------------------------------------------------
+# more than a hundred states, compiled estimator, 1 and 16 OpenMP threads: the estimate does not depend on the number
+# of threads the process happens to have, and is a model in the sense of check_model + the Prinz fixed point
+
+@st.composite
+def many_states_case(draw):
+    return {"n": draw(st.sampled_from([129, 130, 160, 200, 257])), "seed": draw(st.integers(0, 2 ** 31 - 1)),
+            "asym": draw(st.sampled_from([0, 1, 3]))}
+
+
+def run_many_states(case):
+    from threadpoolctl import threadpool_limits
+    rng = np.random.RandomState(case["seed"])        # seed drawn by Hypothesis
+    n = case["n"]
+    S = rng.randint(1, 20, size=(n, n)).astype(float)
+    B = S + S.T + np.diag(rng.randint(50, 200, size=n).astype(float))
+    if case["asym"]:
+        B += rng.randint(0, case["asym"] + 1, size=(n, n))
+    outs = {}
+    for th in (1, 16):
+        with threadpool_limits(limits=th, user_api="openmp"):
+            with warnings.catch_warnings(record=True) as w:
+                warnings.simplefilter("always")
+                T, pi = builders._prinz_mle(B.copy(), max_iter=400)
+        T, pi = np.asarray(T, dtype=float), np.asarray(pi, dtype=float).ravel()
+        warned = any("converge" in str(x.message).lower() for x in w)
+        check_model(B, T, pi, "pyx/%d threads" % th, warned)
+        require(float(np.max(np.abs(pi @ T - pi))) <= 1e-9, "pyx/%d threads: returned populations are not stationary "
+                "for the returned T" % th, residual=float(np.max(np.abs(pi @ T - pi))), n=n)
+        outs[th] = (T, pi, warned)
+    dT = float(np.max(np.abs(outs[1][0] - outs[16][0])))
+    dpi = float(np.max(np.abs(outs[1][1] - outs[16][1])))
+    require(dT <= 1e-10 and dpi <= 1e-10 and outs[1][2] == outs[16][2], "the compiled estimate depends on the number of "
+            "OpenMP threads", dT=dT, dpi=dpi, n=n, warned_1=outs[1][2], warned_16=outs[16][2])
+    return Info(True, ["many_states_n=%d" % n, "many_states_asym=%d" % case["asym"], "many_states_warned=%s" % outs[1][2]],
+                key=[n, case["seed"], case["asym"]])
+
+
 CLAUSES = [
     Clause("scale_invariance", scale_case(), run_scale_invariance, quick=300, thorough=3000),
     Clause("terminates_builder", mle_case(6, with_container=True), run_terminates_builder, quick=500, thorough=5000),
@@ -441,6 +479,8 @@ CLAUSES = [
     Clause("implementations_agree_same_sweeps", mle_case(7, with_max_iter=True), run_agree_same_sweeps,
            quick=400, thorough=3000),
     Clause("nonconvergence_warns", mle_case(7, with_max_iter=True), run_nonconvergence, quick=400, thorough=3000),
+    Clause("compiled_many_states_threads", many_states_case(), run_many_states, quick=12, thorough=120,
+           doc="129..257 states, compiled estimator with 1 and with 16 OpenMP threads: same model, stationary, balanced"),
     Clause("all_3state", mle_case(3), run_all_small, quick=0, thorough=0, exhaustive=exhaustive_small),
 ]
 
